@@ -88,7 +88,7 @@ def main():
     ]
     c.assumptions += ["0 < service.input_buffer_size (theorems' hypothesis hb)", "a read returns a non-empty prefix of the next segment not longer than the buffer offered",
                       "HTTP keep-alive for HTTP/1.0 depends on the response path (known content length): supplied to the model as a hint taken from the reply"]
-    scale = 8 if c.tier == "thorough" else 1
+    scale = 40 if c.tier == "thorough" else 1
 
     c.translate("c01.py")
     proved = c.prove(["Cppcms.C01.Props"], OBLIGATIONS, exe="c01_model")
